@@ -246,7 +246,7 @@ impl Prop for C18 {
         true
     }
     fn random_cases(tier: Tier) -> u64 {
-        tier.pick(8_000, 1_500_000)
+        tier.pick(40_000, 1_500_000)
     }
     fn strategy(_tier: Tier) -> BoxedStrategy<Case> {
         (any::<u32>(), proptest::collection::vec(spec_strategy(), 0..=5)).prop_map(|(flags, specs)| Case { flags, specs }).boxed()
